@@ -35,6 +35,8 @@ class StringNode(BaseNode, SelectNode):
             self.value = StringType(self.cast_value())
         elif value is not None:
             self.value = StringType(value)
+        elif value is None and self.value_raw=='' and not (self.defined or self.value_ref or self.value_fn or self.value_expr or self.dimension):
+            self.value = StringType('')     # a definition with an empty string literal: name str = ""
         else:
             self.value = None
             
